@@ -40,6 +40,7 @@ type FailFile struct {
 	Signature string          `json:"signature"`
 	Violation Violation       `json:"violation"`
 	Plan      json.RawMessage `json:"plan"`
+	Crash     bool            `json:"crash,omitempty"` // written before an event: the process died while serving it
 }
 
 // Stats are accumulated per worker process and written to VERIF_OUT.
@@ -185,7 +186,7 @@ func (f fataler) Fatalf(format string, args ...any) { f.t.Logf(format, args...) 
 // Drive runs the simulation: in replay mode (VERIF_REPLAY) it executes the
 // stored plan once through replay(); otherwise it loops rapid.Check over
 // derived seeds until the budget (VERIF_BUDGET_S) is used up or a check fails.
-func Drive(t *testing.T, world string, prop func(*rapid.T), replay func(plan json.RawMessage) *Violation) {
+func Drive(t *testing.T, world string, prop func(*testing.T, *rapid.T), replay func(plan json.RawMessage) *Violation) {
 	if rp := os.Getenv("VERIF_REPLAY"); rp != "" {
 		b, err := os.ReadFile(rp)
 		if err != nil {
@@ -240,7 +241,7 @@ func Drive(t *testing.T, world string, prop func(*rapid.T), replay func(plan jso
 		}
 		mu.Unlock()
 		_ = flag.Set("rapid.seed", strconv.FormatUint(seed, 10))
-		ok := t.Run(fmt.Sprintf("seed%d", seed), func(t *testing.T) { rapid.Check(t, prop) })
+		ok := t.Run(fmt.Sprintf("seed%d", seed), func(t *testing.T) { rapid.Check(t, func(rt *rapid.T) { prop(t, rt) }) })
 		if !ok {
 			return
 		}
